@@ -5,7 +5,7 @@
      frame finds a live item of a call whose End has already been reported. *)
 From Coq Require Import ZArith List Bool Lia.
 From Verif Require Import Base.Wrap Gen.GenConsts Gen.GenFrame Model.RelayItems Spec.RelayAccount
-  Proofs.RelayAssocP Proofs.RelayCoreP Proofs.RelayInvP Proofs.RelayTimerP Proofs.RelayThmP.
+  Proofs.RelayAssocP Proofs.RelayCoreP Proofs.RelayInv9P Proofs.RelayTimerP Proofs.RelayThmP.
 Import ListNotations.
 Local Open Scope Z_scope.
 
